@@ -149,6 +149,11 @@ def run(F, rep, tier, allfacts):
     fpush = call_blocks(pf, r"Vec.*::push$")
     rpush = call_blocks(pf, r"ReceiptsCtx::push$")
     oks = ok_sites(pf, cfg)
+    # the callee gets *its own* value of each of these registers on every successful call: no write may be conditional
+    for reg in ("SP", "SSP", "PC", "IS", "BAL", "FLAG"):
+        wb = [i for i, _ in byreg.get(R.get(reg), [])]
+        rep.check(bool(wb) and cfg.must_pass(wb, 0, oks), "TAB-call", "unconditional:" + reg, where,
+                  "$%s must be assigned on every Ok path of prepare_call (a skipped assignment lets the callee inherit the caller's value); writes at %s" % (reg.lower(), wb))
     rep.check(len(fpush) == 1 and len(rpush) == 1 and cfg.dominates(rpush[0], fpush[0]) and cfg.must_pass(fpush, 0, oks)
               and all(s in oks or True for s in cfg.succ[fpush[0]]), "TAB-call", "frames.push-last-on-Ok", where,
               "frames.push must happen exactly once, after the call receipt, on the Ok path only")
